@@ -128,7 +128,7 @@ def worker(ctx):
         return t
 
     n = ctx.n(9600, 160000) // ctx.nworkers + 1
-    ctx.run_hypothesis(make, n, chunk=25, replay_fn=replay_case)
+    ctx.run_hypothesis(make, n, chunk=25, replay_fn=replay_case, share=0.7)
     ctx.run_hypothesis(make_cmap, n // 4, chunk=25, replay_fn=replay_case)
     rec.count('fonts_with_report_compared_across_16_configs', len(reports))
     try:
